@@ -217,6 +217,9 @@ uint32_t Ruleset::runOnceImpl(OomdContext& context) {
   if (active_action_chain_state_ != std::nullopt) {
     // resume the action context from when the action chain was fired
     context.setActionContext(active_action_chain_state_->action_context);
+    // the resumed chain may finish on a tick where no detector group fires;
+    // plugins still need their ruleset to apply their own post_action_delay
+    context.setInvokingRuleset(this);
 
     // clear active_async_plugin_ and save it to a temp
     BasePlugin& target = active_action_chain_state_->active_plugin;
